@@ -26,6 +26,7 @@ from ..core import Ctx, Report, pmap
 from ..tlc import MachineryError, fn_to_dict
 
 NET_TPLS = ["binet", "splitnet"]
+PRODARG_TPLS = ["prodarg"]                                 # a mapped reaction whose rate reads its own tracked product
 FRAC_TPLS = ["frac"]                                       # unmapped bystander with non-integer coefficients
 THREE_TPLS = ["tri3", "split3", "homo3", "trimer"]        # three units of base stoichiometry on one side
 ALL_TPLS = ["uni", "bi", "split", "influx", "efflux", "rev", "homo", "dimer", "cof", "byst", "der", "chain"]
@@ -109,6 +110,9 @@ def observe_built(scn: dict, base, mapper, il: dict) -> dict:
             bdy = base.get_right_hand_side(tot)
             obs["pts"].append({"dy": {k: float(v) for k, v in dy.to_dict().items()},
                                "base": {k: float(v) for k, v in bdy.to_dict().items()}})
+        for pr in scn.get("probe", []):
+            y = {k: float(v) for k, v in fn_to_dict(pr["y"]).items()}
+            obs["probe_dy"] = {k: float(v) for k, v in lm.get_right_hand_side(y).to_dict().items()}
     except Exception as e:  # noqa: BLE001
         obs["error"] = f"{type(e).__name__}: {str(e)[:200]}"
     return obs
@@ -141,13 +145,19 @@ def judge(scn: dict, obs: dict) -> dict | None:
         st = {k: (v if dens.get(name, 1) == 1 else v / dens[name]) for k, v in fn_to_dict(r["st"]).items() if v != 0}
         if st != got[name]["st"]:
             return {"what": "stoichiometry", "reaction": name, "expected": st, "observed": got[name]["st"]}
-        if list(r["args"]) != got[name]["args"]:
-            return {"what": "arguments", "reaction": name, "expected": list(r["args"]), "observed": got[name]["args"]}
+        exp_args, got_args = list(r["args"]), got[name]["args"]
+        ok_args = len(exp_args) == len(got_args) and all(
+            (g == e) if not e.startswith("?") else g.startswith(e[1:] + "__") for e, g in zip(exp_args, got_args))
+        if not ok_args:
+            return {"what": "arguments", "reaction": name, "expected": exp_args, "observed": got_args}
     if "error" in obs:
         return {"what": "evaluation", "observed": obs["error"]}
     bad = _cmp_num(fn_to_dict(scn["init"]), obs["init"], "initial conditions")
     if bad:
         return bad
+    for pr in scn.get("probe", []):
+        if pr["balanced"] and abs(sum(obs["probe_dy"].values())) > 1e-9:
+            return {"what": "right-hand side: total amount not conserved by 1:1 reactions", "observed": obs["probe_dy"]}
     for j, (pt, o) in enumerate(zip(scn["pts"], obs["pts"])):
         bad = _cmp_num(fn_to_dict(pt["dy"]), o["dy"], f"right-hand side at state {j + 1}")
         if bad:
@@ -500,7 +510,7 @@ def run(ctx: Ctx) -> int:
                  tpls=["bi", "split", "cof", "chain"] + FRAC_TPLS, maxnl=2, maxl=3, short=False, ords=("swap", "swaprev")),
             dict(name="three", what="exhaustive: three units on one side (A+B+C->D, A->B+C+D, 2A+B->C with non-adjacent mentions, A->3B), "
                  "label counts 1..2, all maps with max(S,P)<=3, short maps",
-                 tpls=THREE_TPLS + FRAC_TPLS, maxnl=2, maxl=3),
+                 tpls=THREE_TPLS + FRAC_TPLS + PRODARG_TPLS, maxnl=2, maxl=3),
             # atom counts that do not balance with two compounds on the affected side (A(1)+B(1)->C(3): external positions
             # appended after two substrates; A(3)->B(1)+C(1): the map is longer than the products' atoms)
             dict(name="uneven", what="exhaustive: A+B->C, A->B+C, cofactor template, label counts 1..3, all maps with max(S,P)<=3",
@@ -527,7 +537,7 @@ def run(ctx: Ctx) -> int:
                  tpls=[t for t in ALL_TPLS if t not in heavy], maxnl=2, maxl=4, short=False, ords=("swap", "rev", "swaprev")),
             dict(name="three", what="exhaustive: three units on one side (A+B+C->D, A->B+C+D, 2A+B->C with non-adjacent mentions, A->3B), "
                  "label counts 1..2, all maps with max(S,P)<=4, short maps",
-                 tpls=THREE_TPLS + FRAC_TPLS, maxnl=3, maxl=4),
+                 tpls=THREE_TPLS + FRAC_TPLS + PRODARG_TPLS, maxnl=3, maxl=4),
             dict(name="orders_net", what="exhaustive: merge and split inside a network whose other reactions introduce the compounds "
                  "first, all four presentation orders, label counts 1..2, all maps max(S,P)<=3",
                  tpls=NET_TPLS, maxnl=2, maxl=3, short=False, ords=("std", "swap", "rev", "swaprev")),
@@ -555,7 +565,7 @@ def run(ctx: Ctx) -> int:
         raise MachineryError(f"only {n_ord} merge/split cases whose compounds are written against the declaration order")
     rep.notes["cases"] = {"total": len(scns), "rejected_expected": n_rej, "doubled_multi_position": n_dbl,
                           "merge_split_against_declaration_order": n_ord,
-                          "by_template": {t: sum(1 for s in scns if s["tpl"] == t) for t in ALL_TPLS + NET_TPLS + THREE_TPLS + FRAC_TPLS}}
+                          "by_template": {t: sum(1 for s in scns if s["tpl"] == t) for t in ALL_TPLS + NET_TPLS + THREE_TPLS + FRAC_TPLS + PRODARG_TPLS}}
     # ---- binding self-test: one corrupted expected value must be noticed by the comparison ---------------------
     probe = next(s for s in scns if s["outcome"] == "ok" and s["tpl"] == "bi")
     probe_obs = observe(probe)
@@ -585,7 +595,7 @@ def run(ctx: Ctx) -> int:
             rep.distinct.add((scn["tpl"], case_key(scn)))
         if bad is not None:
             slim = {"tpl": scn["tpl"], "ord": scn.get("ord"), "b": scn["b"], "req": scn["req"], "outcome": scn["outcome"]}
-            for f in ("rxns", "init", "pts"):
+            for f in ("rxns", "init", "pts", "probe"):
                 if f in scn:
                     slim[f] = scn[f]
             rep.mismatch(slim, bad, classify(scn, bad))
@@ -602,6 +612,10 @@ def run(ctx: Ctx) -> int:
     if n_frac < 10:
         raise MachineryError(f"only {n_frac} cases with an unmapped reaction that has non-integer coefficients")
     rep.notes["cases"]["unmapped_reaction_with_fractional_coefficients"] = n_frac
+    n_wild = sum(1 for s in scns if s["outcome"] == "ok" and s.get("probe"))
+    if n_wild < 10:
+        raise MachineryError(f"only {n_wild} cases with a mapped reaction whose rate reads its own tracked product")
+    rep.notes["cases"]["rate_reads_own_tracked_product"] = n_wild
     # ---- sessions on one mapper object -------------------------------------------------------------------------
     memo = ctx.tlc("LabelExpandSession.tla", "LabelExpandSession_memo.cfg", expect_violation=True, workers=4)
     if memo.violated != "Faithful":
